@@ -26,6 +26,20 @@ def const_str(node):
     return None
 
 
+def table_fields(tree):
+    """(key, value node) of every `dict(key=value, ...)` call and `{"key": value, ...}` literal below tree: the two
+    spellings of a table entry"""
+    for n in ast.walk(tree):
+        if isinstance(n, ast.Call) and isinstance(n.func, (ast.Name, ast.Attribute)):
+            for k in n.keywords:
+                if k.arg:
+                    yield k.arg, k.value
+        elif isinstance(n, ast.Dict):
+            for k, v in zip(n.keys, n.values):
+                if isinstance(k, ast.Constant) and isinstance(k.value, str):
+                    yield k.value, v
+
+
 def dotted(node):
     """a.b.c -> 'a.b.c' (Name/Attribute chains only) else None."""
     parts = []
